@@ -95,7 +95,7 @@ def front_groups(props):
               "mzd_inv_m4ri", "mzd_mul_m4rm", "mzd_addmul_m4rm", "_mzd_mul_m4rm", "mzd_echelonize_m4ri", "mzd_top_echelonize_m4ri", "mzd_process_rows", "mzd_process_rows2", "mzd_process_rows3",
               "mzd_process_rows4", "mzd_process_rows5", "mzd_process_rows6"]
     spec = {
-        # "_mzd_pluq" itself (PLE + one window + triangular column permutation) gave no verdict in 900 s under dfcc (not pursued)
+        "PLUQ": ("_mzd_pluq", ["_mzd_ple", "mzd_init_window", "mzd_free", "mzd_apply_p_right_trans_tri"], ple_fam),
         "PLUQ_W": ("mzd_pluq", ["_mzd_pluq"], ple_fam),
         "PLE_W": ("mzd_ple", ["_mzd_ple"], ple_fam),
         "INV": ("mzd_inv_m4ri", ["mzd_init", "mzd_init_window", "mzd_free", "mzd_copy", "mzd_set_ui", "mzd_echelonize_m4ri"], br_fam),
